@@ -297,7 +297,80 @@ def check_scrub(ctx):
     check_scrub_release_extent_sum(ctx, "C05.failed-write/scrub-release")
 
 
+def check_recovery_gaps(ctx):
+    """recovery rebuilds the free pool as the gaps between *accepted* records: `last_end` starts at the data area, is advanced
+    only for a record that is being indexed (never for a loser, a marker or a skipped block), every gap [last_end, sector) in
+    front of an accepted record and the tail gap behind the last one are released, and a displaced older generation's own
+    extent is released at once"""
+    from feoxlint import bounds as B
+    from rules import roles
+    inst = "C05.recovery-gaps"
+    b = ctx.fn("FeoxStore::scan_and_rebuild_indexes", inst)
+    if b is None:
+        return
+    f = B.flow(b)
+    pub = ctx.sites(b, V.PUB_REC, inst, exact=1)
+    rel = ctx.sites(b, R.call("FreeSpaceManager::release_sectors"), inst, exact=3)
+    blk = ctx.sites(b, R.call("RecoveryScanner::block"), inst, exact=1)
+    if not (pub and blk and len(rel) == 3):
+        return
+    # the scan position: argument of scanner.block(sector)
+    sec = f.operand(b.nodes[blk[0]].ev["args"][1], blk[0])
+    sec_local = roles.recv_local(b, b.nodes[blk[0]], 1)
+    # last_end: the multi-def u64 local that is the *start* argument of a release whose length is `x - start`
+    gap, tail, displaced = None, None, None
+    for r in rel:
+        a1 = f.operand(b.nodes[r].ev["args"][1], r)
+        a2 = f.operand(b.nodes[r].ev["args"][2], r)
+        if a1.k == "phi" and a2.k == "bin" and a2.extra == "Sub" and a2.a[1].key() == a1.key():
+            if a2.a[0].k == "phi" and a2.a[0].extra[0] == sec_local:
+                gap = (r, a1, a2)
+            else:
+                tail = (r, a1, a2)
+        else:
+            displaced = (r, a1, a2)
+    ctx.check(gap is not None, inst, "PIN", b.path, "the gap in front of an accepted record is released as (last_end, sector - last_end)", None)
+    ctx.check(tail is not None, inst, "PIN", b.path, "the tail gap is released as (last_end, total_sectors - last_end)", None)
+    ctx.check(displaced is not None, inst, "PIN", b.path, "a displaced older generation's own extent is released", None)
+    if gap is None or tail is None:
+        return
+    le_local = gap[1].extra[0]
+    ctx.check(tail[1].extra[0] == le_local, inst, "PROVENANCE", b.path, "both gap releases start at the same cursor (last_end)", b.where(tail[0]))
+    tot = [f.operand(n.ev["args"][1], n.id) for n in b.calls() if R.call_matches(n.ev, "DiskIO::read_allocation_journal")]
+    ctx.check(bool(tot) and tail[2].a[0].key() == tot[0].key(), inst, "PROVENANCE", b.path, "the tail gap ends at total_sectors", b.where(tail[0]), {"end": tail[2].a[0].show()[:80]})
+    # definitions of last_end: the initial data-area start and exactly one advance = end of the accepted record's extent
+    defs = b.defs.get(le_local, [])
+    init = [d for d in defs if f.nodeval(d).has_const(name="FEOX_DATA_START_BLOCK") and f.nodeval(d).k == "const"]
+    adv = [d for d in defs if d not in init]
+    ctx.check(len(init) == 1 and len(adv) == 1, inst, "PIN", b.path, "last_end is initialised to FEOX_DATA_START_BLOCK and advanced at exactly one place (found %d + %d)" % (len(init), len(adv)), None)
+    if len(adv) != 1:
+        return
+    v = f.nodeval(adv[0])
+    ok = v.k == "bin" and v.extra == "Add" and any(x.k == "phi" and x.extra[0] == sec_local for x in v.a) and v.has_call("RecordFormat::total_size") and v.has_call("div_ceil")
+    ctx.check(ok, inst, "PIN", b.path, "the advance is sector + blocks of the record being indexed", b.where(adv[0]), {"value": v.show()[:120]})
+    # only for an accepted record: never on the loser path, and every published record has advanced the cursor
+    loser = R.call("Option::is_some_and").filter(lambda bb, n: R.recv_expr(bb, n).has_call("HashMap::read"), "loser test")(b)
+    ctx.check(len(loser) == 1, inst, "anchor", b.path, "one loser test (existing generation newer than the scanned one)", None)
+    R.guard(ctx, inst, b, adv, R.guard_edges_for_call(b, loser, "false"), "the cursor is advanced only for a record that is not a loser (a loser's blocks stay in the next gap)")
+    R.dom(ctx, inst, b, adv, pub, "a record is indexed only after its extent was taken out of the gap bookkeeping", a_desc="last_end = sector + blocks")
+    # the gap release is guarded by `sector > last_end` and sits on the accept path too
+    def gt(e):
+        return e.k == "bin" and e.extra == "Lt" and e.a[0].k == "local" and e.a[0].extra == le_local and e.a[1].k == "local" and e.a[1].extra == sec_local
+    R.guard(ctx, inst, b, [gap[0]], A.pred_edges(b, gt, "true"), "a gap is released only when it is non-empty (`sector > last_end`)")
+    R.guard(ctx, inst, b, [gap[0]], R.guard_edges_for_call(b, loser, "false"), "a gap is released in front of accepted records only")
+    r, _ = A.reach(b, A.succs(b, gap[0]), blocked_nodes=set(adv))
+    ctx.check(not any(x in r for x in pub), inst, "FOLLOW", b.path, "after releasing the gap the cursor is moved past the record before it is indexed", b.where(gap[0]))
+    # the tail gap comes after the loop and after the post-scan retirements were queued
+    def lt_tot(e):
+        return e.k == "bin" and e.extra == "Lt" and e.a[0].k == "local" and e.a[0].extra == le_local and e.a[1].has_field("FeoxStore", "device_size") and \
+            not any(x.k == "bin" and x.extra != "Div" for x in e.a[1].walk())
+    R.guard(ctx, inst, b, [tail[0]], A.pred_edges(b, lt_tot, "true"), "the tail gap is released only when it is non-empty")
+    r2, _ = A.reach(b, A.succs(b, tail[0]))
+    ctx.check(not any(x in r2 for x in blk), inst, "NEVER-AFTER", b.path, "no block is scanned after the tail gap was released", b.where(tail[0]))
+
+
 def check(ctx):
+    check_recovery_gaps(ctx)
     check_scrub(ctx)
     check_who(ctx)
     check_after_marker(ctx)
